@@ -7,6 +7,7 @@ import (
 	"crypto/sha256"
 	"encoding/hex"
 	"encoding/json"
+	"fmt"
 	"hash/fnv"
 	"time"
 )
@@ -70,6 +71,9 @@ type Result struct {
 func Okay(nt bool, out string) Result { return Result{V: OK, NT: nt, Out: out} }
 func Skipped(why string) Result       { return Result{V: Skip, Why: why} }
 func Violation(class, msg string) Result {
+	if len(msg) > 6000 { // cases with very long inputs: keep both ends (the replay file holds the case itself)
+		msg = msg[:3500] + fmt.Sprintf(" ...[%d bytes omitted]... ", len(msg)-5000) + msg[len(msg)-1500:]
+	}
 	return Result{V: Viol, Why: class, Msg: msg, NT: true}
 }
 
